@@ -173,7 +173,8 @@ class Dm1:
         self._ca.add_timer(delta_time=cycletime, callback=self._send, cookie=cookie)
 
     def stop_send(self, callback):
-        self._ca.remove_timer(callback)
+        # the timer was registered with self._send as its callback (the user's callback travels in the cookie)
+        self._ca.remove_timer(self._send)
 
     @property
     def dtc_dic_list(self):
